@@ -295,7 +295,7 @@ def concurrent(chk, rng, n_random, n_dfs, tag):
     lines, meta = [], []
 
     def record(res, vals, n_threads, per_thread, how):
-        inp = {"op": "concurrent", "threads": n_threads, "requests_per_thread": per_thread, "source": vals[:16], "how": how,
+        inp = {"op": "concurrent", "threads": n_threads, "requests_per_thread": per_thread, "source": vals[:64], "how": how,
                "schedule_len": len(res["schedule"])}
         chk.case(dict(inp, schedule=res["schedule"]), kind="conc:%s:%s" % (how, tag))
         bad = check_concurrent(chk, res, vals, n_threads, per_thread, inp)
@@ -369,6 +369,20 @@ def run(chk):
 
 
 def replay(path):
+    """re-runs a stored concurrent schedule on the current tree (sequential findings are printed: their input is the description)"""
     r = json.load(open(path))
-    print(json.dumps(r.get("first") or r.get("broken_theorems") or r.get("correspondence_breaks"), indent=1, default=str)[:3000])
-    return 1 if r.get("first") else 0
+    v = r.get("first")
+    if not v:
+        print(json.dumps(r.get("broken_theorems") or r.get("correspondence_breaks"), indent=1, default=str)[:3000])
+        return 0
+    i = v["input"]
+    print("recorded: %s\n%s" % (v["what"], json.dumps(i, default=str)[:600]))
+    if i.get("op") != "concurrent":
+        return 1
+    vals = list(i["source"]) + [10 ** 6 + k for k in range(64)]
+    res = concurrent_run(vals, i["threads"], i["requests_per_thread"], simlib.replay_chooser(i["schedule"]))
+    hs = [p[0] for l in res["issued"].values() for p in l]
+    es = [p[1] for l in res["issued"].values() for p in l]
+    bad = res["status"] != "finished" or len(set(hs)) != len(hs) or len(set(es)) != len(es)
+    print("now     : status=%s hop-by-hop=%s end-to-end=%s" % (res["status"], hs, es))
+    return 1 if bad else 0
